@@ -23,8 +23,9 @@ PATH = "/v/c03.nix"
 
 HEX32 = "0123456789abcdef0123456789abcdef"
 NAMES = ["b", "a", HEX32, "123e4567-e89b-42d3-a456-426614174000", "äß", "n" * 300,
-         "urn:uuid:123e4567-e89b-42d3-a456-426614174001", "{123e4567-e89b-42d3-a456-426614174002}"]
-QUICK_NAMES = [0, 1, 2, 4]          # indices into NAMES used in the quick tier
+         "urn:uuid:123e4567-e89b-42d3-a456-426614174001", "{123e4567-e89b-42d3-a456-426614174002}",
+         "=ID-OF-FIRST"]
+QUICK_NAMES = [0, 1, 2, 8]          # indices into NAMES used in the quick tier
 
 
 def setup():
@@ -105,15 +106,18 @@ def _agree(cont, want):
     for pos, (n, i) in enumerate(want):
         if not is_uuid(i):
             return False
-        e = cont[n]
-        if e.id != i or e.name != n:
-            return False
+        if n not in ids:
+            # (a name that is character for character the id of a sibling is
+            # ambiguous by design: the id takes precedence - not asserted)
+            e = cont[n]
+            if e.id != i or e.name != n:
+                return False
         e = cont[i]
         if e.id != i or e.name != n:
             return False
         if cont[pos].id != i or cont[pos - len(want)].id != i:
             return False
-        if not (n in cont and i in cont and e in cont):
+        if not ((n in cont or n in ids) and i in cont and e in cont):
             return False
     return True
 
@@ -139,38 +143,46 @@ def _ob_name_check(s: str) -> bool:
 # b. create / duplicate / delete, lookups by name, id, membership, iteration
 #    PART = (container kind, delete-by mode, name table indices)
 # ---------------------------------------------------------------------------
-def _ob_create_lookup(n1: int, n2: int, which: int) -> bool:
+def _ob_create_lookup(n1: int, n2: int, which: int, mid: bool) -> bool:
     """
-    pre: 0 <= n1 < 8 and 0 <= n2 < 8
+    pre: 0 <= n1 < 9 and 0 <= n2 < 9
     pre: 0 <= which < 3
     post: __return__
     """
     from nixio.exceptions import DuplicateName
-    kind, how, table = PART
+    kind, how, table, pairs = PART
     assume(n1 < len(table) and n2 < len(table))
+    if how != "none" and pairs is not None:
+        assume((n1, n2) in pairs)        # quick tier: deletion histories on two name pairs only
     f, create, cont = _kind(kind)
     names = [NAMES[_pick(table, n1)], NAMES[_pick(table, n2)], "zz"]
     want = []
     made = []
     for n in names:
+        if n == "=ID-OF-FIRST":
+            # a legal name that is, character for character, the id of a sibling
+            n = want[0][1] if want else "first"
         try:
             e = create(n)
         except DuplicateName:
             if n not in [w[0] for w in want]:
+                # (a name equal to a sibling's id is ambiguous by design - outside the claim)
+                assume(n not in [w[1] for w in want])
                 return False            # a fresh name must be accepted
             continue
         if n in [w[0] for w in want]:
             return False                # a duplicate must be refused
         want.append((n, e.id))
         made.append(e)
-    if not _agree(cont(), want):
+    c = cont()                       # ONE container object for the whole history
+    if not _agree(c, want):
         return False
     if how == "none":
         return True
     assume(which < len(want))
     victim = want[which]
-    c = cont()
     if how == "name":
+        assume(victim[0] not in [w[1] for w in want])      # ambiguous: id takes precedence
         del c[victim[0]]
     elif how == "id":
         del c[victim[1]]
@@ -179,23 +191,32 @@ def _ob_create_lookup(n1: int, n2: int, which: int) -> bool:
     else:
         del c[made[which]]
     rest = [w for w in want if w != victim]
-    c = cont()
-    if victim[0] in c or victim[1] in c:
-        return False
-    try:
-        c[victim[0]]
-        return False
-    except KeyError:
-        pass
-    if not _agree(c, rest):
-        return False
+    allnames = [w[0] for w in want]
+    allids = [w[1] for w in want]
+    ambiguous = victim[0] in allids or victim[1] in allnames
+    if how == "name":
+        assume(not ambiguous)
+    if mid and not ambiguous:
+        if victim[0] in c or victim[1] in c:
+            return False
+        try:
+            c[victim[0]]
+            return False
+        except KeyError:
+            pass
+    if mid:
+        if not _agree(c, rest):
+            return False
     # the name is free again and gets a new id, appended at the end
     if kind == "group_links":
-        return True
-    e = create(victim[0])
-    if e.id in [w[1] for w in want]:
-        return False
-    return _agree(cont(), rest + [(victim[0], e.id)])
+        e = made[which]
+        c.append(e)
+    else:
+        e = create(victim[0])
+        if e.id in [w[1] for w in want]:
+            return False
+    after = rest + [(victim[0], e.id)]
+    return _agree(c, after) and _agree(cont(), after)
 
 
 # ---------------------------------------------------------------------------
@@ -259,8 +280,9 @@ def _real(fn_name, args):
 
 def _parts(tier):
     table = QUICK_NAMES if tier == "quick" else list(range(len(NAMES)))
-    hows = ["none", "name", "id"] if tier == "quick" else ["none", "name", "id", "index", "object"]
-    return [(k, h, tuple(table)) for k in KINDS for h in hows]
+    hows = ["none", "name", "id", "index"] if tier == "quick" else ["none", "name", "id", "index", "object"]
+    pairs = ((0, 1), (2, 3)) if tier == "quick" else None     # positions in `table`
+    return [(k, h, tuple(table), pairs) for k in KINDS for h in hows]
 
 
 OBLIGATIONS = [
@@ -274,7 +296,9 @@ OBLIGATIONS = [
                   "nixio.hdf5.h5group.H5Group.get_by_pos", "nixio.hdf5.h5group.H5Group.delete_all",
                   "nixio.entity.Entity.create_new"],
        replay=lambda a: _real("_ob_create_lookup", a),
-       outside="quick: 4 of the 8 table names and deletion by name/id; data frames (not working "
+       outside="quick: 4 of the 9 table names, deletion histories on two name pairs; a name that "
+               "is character for character the id of a sibling is ambiguous by design (the id takes "
+               "precedence) - only lookups by id are asserted for it; data frames (not working "
                "with the installed NumPy); reopening (libhdf5)"),
     Ob("positional_index_all_integers", _ob_index, timeout=600, partition=KINDS,
        functions=["nixio.container.Container.__getitem__", "nixio.hdf5.h5group.H5Group.get_by_pos"],
